@@ -28,8 +28,11 @@ def run(ctx):
                             "on both sides of the PIP-10 activation; non-trivial = Go returned a value (not an error); chains: see distribution.chains")
     ctx.proof_stage()
     run_convert(ctx)
-    from . import ledger
+    from . import ledger, c18
     ledger.run(ctx)
+    # pricing must not depend on what the API served in between: a daemon under API load (rich lists ask for the
+    # averages of the height the next block will price with) against one serving nothing
+    c18.apiload(ctx, ["gaps"], 8, False, status=False, runs=1)
 
 
 def search(ctx, why):
